@@ -227,6 +227,13 @@ impl SocketWorker {
 
     fn run_inner(&mut self, ring: &mut IoUring) {
         loop {
+            #[cfg(aquatic_verif)]
+            if aquatic_common::verif::probe("udp.socket.loop")
+                != aquatic_common::verif::ACTION_CONTINUE
+            {
+                return;
+            }
+
             for sqe in self.resubmittable_sqe_buf.drain(..) {
                 unsafe { ring.submission().push(&sqe).unwrap() };
             }
@@ -315,6 +322,9 @@ impl SocketWorker {
                 }
             }
             USER_DATA_PULSE_TIMEOUT => {
+                #[cfg(aquatic_verif)]
+                aquatic_common::verif::count("udp.time_refreshed");
+
                 self.validator.update_elapsed();
 
                 let opt_valid_until = ValidUntil::new(
@@ -394,6 +404,9 @@ impl SocketWorker {
 
             return None;
         }
+
+        #[cfg(aquatic_verif)]
+        aquatic_common::verif::count("udp.datagram_seen");
 
         let buffer = unsafe {
             match self.buf_ring.get_buf(result as u32, cqe.flags()) {
